@@ -244,6 +244,16 @@ func init() {
 		sb.WriteString("def cmdCalls : List String := " + leanStrList(keyCalls) + "\n")
 		sb.WriteString("def cmdReturns : List String := " + leanStrList(crets) + "\n")
 		sb.WriteString(fmt.Sprintf("def cmdMaxBytes : Nat := %d\n", maxBytes))
+		// sqlite's busyRetry wraps every write statement (WriteAssertions included): its control skeleton decides
+		// whether a write that never ran can report success
+		busyBody := ""
+		if fsB, fB, errB := parseFile(repo, "pkg/storage/sqlite/sqlite.go"); errB == nil {
+			if fd := findFunc(fB, "", "busyRetry"); fd != nil {
+				busyBody = src(fsB, fd.Body)
+			}
+		}
+		sb.WriteString("/-- body of sqlite.busyRetry -/\n")
+		sb.WriteString("def sqliteBusyRetryBody : String := " + leanStr(busyBody) + "\n")
 		sb.WriteString("\nend OpenFGAVerif.Gen.Assertions\n")
 		summary["memKey"] = []string{wf, rf}
 		summary["sqlWriteChain"] = rev(wchain)
